@@ -2,10 +2,12 @@
    in both directions.
    Input: every RFC form is accepted (Proofs/C17Dec.v gives the exact results; here the property-level
    statements).  Output: family, prefix lengths, negation preserved; the number of address octets is
-   characterised exactly (Proofs/C17Enc.v), decoding gives the value back, and the RFC counts are
-   REFUTED (known findings KF2, KF3). *)
+   characterised exactly (Proofs/C17Enc.v), decoding gives the value back, the APL count is the
+   RFC 3123 count and the ECS count is the RFC 7871 count outside the one remaining class of known
+   finding KF2 (Proofs/C17Rt.v). *)
 From Coq Require Import ZArith ZifyBool ZifyN ZifyNat.
-From DNS Require Import Model.Values Model.Dec Model.Enc Proofs.DecBase Proofs.C12 Proofs.C17Dec Proofs.C17Enc.
+From DNS Require Import Proofs.EncTotal Model.Values Model.Dec Model.Enc Proofs.DecBase Proofs.C12 Proofs.C17Dec
+  Proofs.C17Enc.
 Local Open Scope N_scope.
 Ltac Zify.zify_post_hook ::= Z.div_mod_to_equations.
 
@@ -276,25 +278,22 @@ Qed.
 (* 2. Output side: the emitted octets                                                                *)
 (* ================================================================================================ *)
 
-Theorem emit_count_loop : forall (oct : bytes) (p : N),
-  (lenN oct = 4 ->
-     addr_prefix_loop OP_enc_prefix4 ENC_PREFIX_STEP4 oct p = Ok (takeN (N.min (p / 8 + 1) 4) oct)) /\
-  (lenN oct = 16 ->
-     addr_prefix_loop OP_enc_prefix6 ENC_PREFIX_STEP6 oct p = Ok (takeN (N.min (p / 8 + 1) 16) oct)).
-Proof.
-  intros oct p. split; intros H.
-  - rewrite addr_prefix_loop4, H. reflexivity.
-  - rewrite addr_prefix_loop6, H. reflexivity.
-Qed.
+(* "index of the last non-zero octet + 1" *)
+Theorem significant_def : forall l : bytes,
+  addr_significant l <= lenN l /\
+  forallb (N.eqb 0) (dropN (addr_significant l) l) = true /\
+  (addr_significant l = 0 \/ exists x, nthN (addr_significant l - 1) l = Some x /\ x <> 0).
+Proof. exact addr_significant_spec. Qed.
 
-Theorem emit_count_address : forall (a : addr) (p : N) (st : est), addr_wf a ->
-  let cnt := N.min (p / 8 + 1) (addr_size a) in
-  rr_address_with_prefix a p st =
+Theorem emit_address : forall (a : addr) (m : N) (st : est), addr_wf a -> m <= addr_size a ->
+  let cnt := N.max (addr_significant (a_oct a)) m in
+  rr_address_with_length a m st =
     EOk tt {| e_buf := e_buf st ++ takeN cnt (a_oct a); e_idx := e_idx st; e_names := e_names st |} /\
   lenN (takeN cnt (a_oct a)) = cnt.
 Proof.
-  intros a p st Hwf cnt. rewrite rr_address_with_prefix_eq, (addr_wf_len a Hwf).
-  split; [reflexivity|]. rewrite lenN_takeN_, (addr_wf_len a Hwf). unfold cnt. lia.
+  intros a m st Hwf Hm cnt. rewrite rr_address_with_length_count.
+  split; [reflexivity|]. rewrite lenN_takeN_. fold (emit_count (a_oct a) m) in cnt.
+  pose proof (emit_count_le (a_oct a) m) as H. rewrite (addr_wf_len a Hwf) in *. fold cnt in H. lia.
 Qed.
 
 Lemma u16b_fam fam : fam = 1 \/ fam = 2 -> u16b fam = [0; fam].
@@ -302,24 +301,46 @@ Proof. intros [->| ->]; reflexivity. Qed.
 Lemma addr_wf_fam a : addr_wf a -> a_fam a = 1 \/ a_fam a = 2.
 Proof. intros [[[H _]|[H _]] _]; [left|right]; exact H. Qed.
 
-Theorem emit_count_apitem : forall (i : apitem) (st : est), apitem_inv i ->
-  let cnt := N.min (i_prefix i / 8 + 1) (addr_size (i_addr i)) in
+(* no bit at or beyond the prefix is set, so every octet from index ceil(p / 8) on is zero *)
+Lemma tail_zero (a : addr) (p : N) : addr_wf a -> prefix_ok a p ->
+  forall k, (p + 7) / 8 <= k < lenN (a_oct a) -> nth (N.to_nat k) (a_oct a) 0 = 0.
+Proof.
+  intros Hwf [Hp Hbits] k [Hk1 Hk2]. rewrite (addr_wf_len a Hwf) in Hk2.
+  destruct Hwf as [_ Hoct].
+  apply octet_zero_spec; [apply Forall_nth_lt; exact Hoct|].
+  intros j Hj. specialize (Hbits (8 * k + j)). unfold addr_bit in Hbits.
+  destruct (divmod8_unique k j Hj) as [Hq Hr]. rewrite Hq, Hr in Hbits. apply Hbits. lia.
+Qed.
+Lemma significant_within_prefix (a : addr) (p : N) : addr_wf a -> prefix_ok a p ->
+  addr_significant (a_oct a) <= (p + 7) / 8.
+Proof.
+  intros Hwf Hok. apply addr_significant_least. apply rest_zero_spec.
+  intros k Hk. apply (tail_zero a p Hwf Hok). exact Hk.
+Qed.
+
+Theorem emit_apitem : forall (i : apitem) (st : est), apitem_inv i ->
+  let cnt := addr_significant (a_oct (i_addr i)) in
   enc_apitem i st =
     EOk tt {| e_buf := e_buf st ++ u16b (a_fam (i_addr i)) ++ [i_prefix i mod 256]
                         ++ [(if i_neg i then 128 else 0) + cnt] ++ takeN cnt (a_oct (i_addr i));
               e_idx := e_idx st; e_names := e_names st |} /\
   lenN (takeN cnt (a_oct (i_addr i))) = cnt /\
-  i_prefix i mod 256 = i_prefix i /\ cnt < 128.
+  i_prefix i mod 256 = i_prefix i /\ cnt < 128 /\ cnt <= (i_prefix i + 7) / 8.
 Proof.
-  intros i st [Hwf [Hp _]] cnt.
+  intros i st [Hwf Hok] cnt. pose proof Hok as [Hp _].
   split; [exact (enc_apitem_eq i st Hwf)|].
   pose proof (addr_size_cases (i_addr i)) as Hs.
-  split; [rewrite lenN_takeN_, (addr_wf_len _ Hwf); unfold cnt; lia|].
-  split; [apply N.mod_small; lia|unfold cnt; lia].
+  pose proof (addr_significant_le (a_oct (i_addr i))) as Hle. rewrite (addr_wf_len _ Hwf) in Hle. fold cnt in Hle.
+  split; [rewrite lenN_takeN_, (addr_wf_len _ Hwf); lia|].
+  split; [apply N.mod_small; lia|]. split; [lia|].
+  exact (significant_within_prefix (i_addr i) (i_prefix i) Hwf Hok).
 Qed.
 
-Theorem emit_count_ecs : forall (e : ecs) (st : est), ecs_inv e ->
-  let cnt := N.min (N.max (e_src e) (e_scope e) / 8 + 1) (addr_size (e_addr e)) in
+Lemma ecs_inv_src (e : ecs) : ecs_inv e -> e_src e <= 8 * addr_size (e_addr e).
+Proof. intros [_ [Hp _]]. lia. Qed.
+
+Theorem emit_ecs : forall (e : ecs) (st : est), ecs_inv e ->
+  let cnt := N.max (addr_significant (a_oct (e_addr e))) ((e_src e + 7) / 8) in
   enc_ecs e st =
     EOk tt {| e_buf := e_buf st ++ u16b 8 ++ u16b (4 + cnt) ++ u16b (a_fam (e_addr e))
                         ++ [e_src e mod 256] ++ [e_scope e mod 256] ++ takeN cnt (a_oct (e_addr e));
@@ -327,9 +348,10 @@ Theorem emit_count_ecs : forall (e : ecs) (st : est), ecs_inv e ->
   lenN (takeN cnt (a_oct (e_addr e))) = cnt /\
   e_src e mod 256 = e_src e /\ e_scope e mod 256 = e_scope e.
 Proof.
-  intros e st [Hwf [Hp _]] cnt.
-  split; [exact (enc_ecs_eq e st Hwf)|].
+  intros e st Hinv cnt. pose proof Hinv as [Hwf [Hp _]]. pose proof (ecs_inv_src e Hinv) as Hsrc.
+  split; [exact (enc_ecs_eq e st Hwf Hsrc)|].
   pose proof (addr_size_cases (e_addr e)) as Hs.
-  split; [rewrite lenN_takeN_, (addr_wf_len _ Hwf); unfold cnt; lia|].
+  pose proof (ecs_count_le e Hwf Hsrc) as Hle. change (ecs_count e) with cnt in Hle.
+  split; [rewrite lenN_takeN_, (addr_wf_len _ Hwf); lia|].
   split; apply N.mod_small; lia.
 Qed.
